@@ -684,6 +684,82 @@ def border_history(r, scen):
     return " ; ".join(items)
 
 
+def chain_history(r, scen):
+    """the observed history of a run in chain_main's input format (multi-border layer, forward unlimited scans
+    from one thread at a time, keys <= 8 bytes), or None if the run is outside the chain model"""
+    chain = None
+    for ln in r.out.split("\n"):
+        if ln.startswith("CHAIN " + hx(scen.storage) + " "):
+            chain = ln.split(" ")[2] if len(ln.split(" ")) > 2 else ""
+    if not chain or chain == "-":
+        return None
+    items = ["C " + chain]
+    kn = lambda k: int(knum(k), 16)
+    has_scan = False
+    for step, rest in r.hist:
+        t = rest.split(" ")
+        if t[0] == "inv":
+            kind = t[2]
+            if kind in ("put", "uput", "rem", "get"):
+                k = unhex(t[4])
+                if len(k) > 8:
+                    return None
+                items.append("inv %s %s %x" % (t[1], kind, kn(k)))
+            elif kind == "scan":
+                l, le, rk, re_, mx, rtl = unhex(t[4]), t[5], unhex(t[6]), t[7], int(t[8]), t[9] == "1"
+                if mx != 0 or rtl or len(l) > 8 or len(rk) > 8:
+                    return None
+                lo = 0 if le == "INF" else kn(l) + (1 if le == "EX" else 0)
+                if re_ == "INF":
+                    hi = "inf"
+                else:
+                    hv = kn(rk) - (1 if re_ == "EX" else 0)
+                    if hv < 0:
+                        return None
+                    hi = "%x" % hv
+                items.append("inv %s scan %x %s" % (t[1], lo, hi))
+                has_scan = True
+            else:
+                return None
+        elif t[0] == "res":
+            res = " ".join(t[2:])
+            m = re.match(r"(\S+) n=(\d+) t=\[(.*?)\] nvn=", res)
+            if m:
+                if m.group(1) != "OK":
+                    return None
+                ks = [unhex(e.split(":")[0]) for e in m.group(3).split()]
+                if any(len(k) > 8 for k in ks):
+                    return None
+                out = "keys:" + ",".join("%x" % kn(k) for k in ks)
+            elif res.startswith("OK v=") or res.startswith("OK w="):
+                out = "present"
+            elif res == "OK":
+                out = "ok"
+            elif res == "WARN_NOT_EXIST":
+                out = "notexist"
+            elif res == "OK_NOT_FOUND":
+                out = "notfound"
+            elif res == "WARN_UNIQUE_RESTRICTION":
+                out = "unique"
+            else:
+                return None
+            items.append("res %s %s" % (t[1], out))
+    if not has_scan:
+        return None
+    return " ; ".join(items)
+
+
+def chain_batch(lines, workdir):
+    f = os.path.join(workdir, "chain_jobs.txt")
+    with open(f, "w") as fh:
+        fh.write("\n".join(lines) + "\n")
+    rc, out = C.sh([os.path.join(C.BUILD, "chain_main"), f], timeout=1800, merge=False)
+    v = [x.split()[0] for x in out.split("\n") if x.strip()]
+    if rc != 0 or len(v) != len(lines):
+        return ["ERROR"] * len(lines)
+    return v
+
+
 def border_batch(lines, workdir):
     f = os.path.join(workdir, "border_jobs.txt")
     with open(f, "w") as fh:
@@ -693,7 +769,7 @@ def border_batch(lines, workdir):
 
 
 def run_conc_property(res, tag, want, shapes, kinds, scans, budget_quick, budget_thorough, tie_shapes=("single", "last", "empty"),
-                      strategies_quick=("preempt1",), strategies_thorough=("preempt1", "preempt2", "pct"), use_catalogue=True):
+                      strategies_quick=("preempt1",), strategies_thorough=("preempt1", "preempt2", "pct"), use_catalogue=True, chain_tie=False):
     """generic flow for a property explored under the scheduler with verified oracles"""
     pid = res.pid
     st = C.property_status(pid)
@@ -702,7 +778,7 @@ def run_conc_property(res, tag, want, shapes, kinds, scans, budget_quick, budget
     if not ok:
         res.violation("conc_driver does not compile against /repo", dict(kind="build-failure", log=o[-3000:]), nofail=True)
         return res.finish()
-    for d in ("lin_main", "border_main"):
+    for d in ("lin_main", "border_main") + (("chain_main",) if chain_tie else ()):
         okm, om = C.build_model(d)
         if not okm:
             res.violation("model driver does not build", dict(kind="model-build-failure", log=om[-3000:]), nofail=True)
@@ -719,6 +795,21 @@ def run_conc_property(res, tag, want, shapes, kinds, scans, budget_quick, budget
     viol = []
     samples = []
     tie_lines, tie_meta = [], []
+    chain_lines, chain_meta = [], []
+
+    def collect_chain(sc, runs, cap):
+        if not chain_tie:
+            return
+        got = 0
+        for r in runs:
+            if got >= cap:
+                break
+            if r.rc == 0 and r.done:
+                h = chain_history(r, sc)
+                if h:
+                    chain_lines.append(h)
+                    chain_meta.append((r.text, r.schedule))
+                    got += 1
     shape_counts = {}
     # corpus: stored scenarios with their schedules run first
     cdir = os.path.join(C.VERIF, "corpus", pid)
@@ -755,6 +846,7 @@ def run_conc_property(res, tag, want, shapes, kinds, scans, budget_quick, budget
             distinct += dist
             viol += v
             shape_counts["catalogue"] = shape_counts.get("catalogue", 0) + n
+            collect_chain(sc, runs, 120 if res.tier == "quick" else 600)
     n_scen = 2 if res.tier == "quick" else 8
     special = {"collapse": gen_collapse, "collapse-scan": gen_collapse_scan}
     for shape in shapes:
@@ -771,6 +863,7 @@ def run_conc_property(res, tag, want, shapes, kinds, scans, budget_quick, budget
                 distinct += dist
                 viol += v
                 shape_counts[shape] = shape_counts.get(shape, 0) + n
+                collect_chain(sc, runs, 40 if res.tier == "quick" else 200)
                 if shape in tie_shapes:
                     for r in runs[:60]:
                         if r.rc == 0 and r.done:
@@ -787,9 +880,19 @@ def run_conc_property(res, tag, want, shapes, kinds, scans, budget_quick, budget
         for vdt, meta in zip(verdicts, tie_meta):
             if vdt != "ACCEPT":
                 rejected.append((vdt, meta))
+    chain_rej = []
+    chain_verdicts = {}
+    if chain_lines:
+        cv = chain_batch(chain_lines, wd)
+        for vdt, meta, ln in zip(cv, chain_meta, chain_lines):
+            chain_verdicts[vdt] = chain_verdicts.get(vdt, 0) + 1
+            if vdt in ("REJECT", "ERROR"):
+                chain_rej.append((vdt, meta, ln))
+    res.cov["chain_model_tie"] = dict(histories=len(chain_lines), verdicts=chain_verdicts,
+                                      model="ChainDefs.cstep true (multi-border scan hand-over), searched by ocaml/chain_main.ml")
     res.cov.update(
         programs=total_runs, evaluations=total_runs, distinct_nontrivial=distinct,
-        traces_validated_against_impl=len(tie_lines) - len(rejected),
+        traces_validated_against_impl=len(tie_lines) - len(rejected) + chain_verdicts.get("ACCEPT", 0),
         rule="one program = one scenario (prepared tree shape + 1-2 operations per thread, same-key races included) under "
              "one schedule of the real hooked library; strategies: %s; non-trivial/distinct = distinct schedules "
              "actually taken (per scenario)" % ",".join(strategies),
@@ -801,11 +904,16 @@ def run_conc_property(res, tag, want, shapes, kinds, scans, budget_quick, budget
         res.violation("%s: %s" % (orc, desc[:300]),
                       dict(kind="conc-" + orc, scenario=replay_text(text, sched), original_mode=text.split("\n")[0],
                            description=desc[:2000], all=sorted({v[0] for v in viol})))
-    elif rejected or not st["ok"]:
+    elif rejected or chain_rej or not st["ok"]:
         what = []
         if not st["ok"]:
             what.append("proof obligations no longer check: " + "; ".join(st["broken"][:5]))
-        if rejected:
+        if chain_rej:
+            what.append("behavioural inclusion broken: %d real multi-border histories cannot be produced by the model "
+                        "ChainDefs (first: %s)" % (len(chain_rej), chain_rej[0][2][:400]))
+            if not rejected:
+                rejected = [(chain_rej[0][0], chain_rej[0][1])]
+        if rejected and not chain_rej:
             what.append("behavioural inclusion broken: %d real single-border histories cannot be produced by the model BorderDefs" % len(rejected))
         res.violation("; ".join(what), dict(kind="broken-tie", broken=what,
                                             scenario=replay_text(rejected[0][1][0], rejected[0][1][1]) if rejected else None),
